@@ -255,6 +255,52 @@ func childC12(a []string) string {
 		if r.Bool() {
 			c.Close()
 		}
+	case "truncated":
+		// the arguments of every action an object has of its own (subscriptions, meta-object, properties,
+		// statistics, traces) and of the services' methods, cut at every length: as calls and as posts
+		c, err := w.rawConn()
+		if err != nil {
+			return "setup-error:" + err.Error()
+		}
+		go c12Drain(c, 3*time.Second)
+		val := func(sig string, body []byte) []byte { return append(svString(sig), body...) }
+		reg := append(append(le32(1), le32(102)...), le64(uint64(5000+r.Intn(1000)))...)
+		type req struct {
+			svc, act uint32
+			p        []byte
+		}
+		reqs := []req{
+			{2, 0, reg}, {2, 1, reg}, {3, 0, reg}, {3, 1, reg}, {1, 0, reg}, {1, 1, reg},
+			{2, 8, append(append([]byte{}, reg...), svString("(s)")...)},
+			{2, 2, le32(1)}, {3, 2, le32(1)}, {1, 2, le32(1)},
+			{3, 5, val("s", svString("delay"))}, {3, 6, append(val("s", svString("delay")), val("i", le32(7))...)},
+			{2, 5, val("I", le32(0))}, {2, 6, append(val("I", le32(0)), val("s", svString("x"))...)},
+			{2, 81, []byte{1}}, {2, 85, []byte{1}}, {2, 100, svString("hello")}, {2, 101, svString("ping")},
+			{1, 100, svString("PingPong")},
+		}
+		id := uint32(100)
+		for _, q := range reqs {
+			for cut := 0; cut <= len(q.p); cut++ {
+				for _, typ := range []uint8{qnet.Call, qnet.Post} {
+					if q.act == 0 && cut == len(q.p) && typ == qnet.Post {
+						continue
+					}
+					id++
+					if c12Frame(c, typ, q.svc, 1, q.act, id, q.p[:cut]) != nil {
+						return w.probe()
+					}
+				}
+			}
+			// the same with the other object identifier in front
+			if len(q.p) >= 4 && q.act <= 2 {
+				alt := append(le32(0), q.p[4:]...)
+				for cut := 4; cut <= len(alt); cut++ {
+					id++
+					c12Frame(c, qnet.Call, q.svc, 1, q.act, id, alt[:cut])
+				}
+			}
+		}
+		time.Sleep(200 * time.Millisecond)
 	case "lengths":
 		// well-formed requests with one length field replaced by a hostile value — strings only:
 		// the element counts of lists and maps are the subject of the scenario "counts"
@@ -456,7 +502,7 @@ func runC12(r *Rand, tier string, o *Out) {
 	if tier == "thorough" {
 		per = 12
 	}
-	for _, sc := range []string{"valid", "subscriptions", "raw", "lengths", "flood-reading", "flood-posts", "terminate-busy", "terminate-other", "deep-signature", "disconnects"} {
+	for _, sc := range []string{"valid", "subscriptions", "raw", "truncated", "lengths", "flood-reading", "flood-posts", "terminate-busy", "terminate-other", "deep-signature", "disconnects"} {
 		for i := 0; i < per; i++ {
 			line := fmt.Sprintf("c12.run %s %d", sc, r.U64()>>1)
 			if out := o.Do("P", line, true); out != "ok" {
